@@ -12,10 +12,39 @@ SPECIAL_FILES = ["hg:hg.mozilla.org/mozilla-central:widget/cocoa/nsAppShell.mm:9
                  "cargo:github.com-1ecc6299db9ec823:tokio-1.6.1:src/runtime/task/mod.rs",
                  "/src/demo/alpha.c", "/src/demo/sub dir/beta.h", "relative/gamma.cpp", "C:\\win\\delta.c"]
 
-GEN_MODULES = [("genmod1.so", "AAAA0000BBBB1111CCCC2222DDDD33330"), ("genmod2", "0123456789ABCDEF0123456789ABCDEF1")]
+GEN_MODULES = [("genmod1.so", "AAAA0000BBBB1111CCCC2222DDDD33330"), ("genmod2", "0123456789ABCDEF0123456789ABCDEF1"),
+               ("genmod3.so", "0F0E0D0C0B0A090807060504030201002")]
+
+
+def _gen_sym_odd(name, bid):
+    """a module whose function, line-record and inline-range boundaries fall on odd and even addresses alike, with a different file on each side
+    of every boundary; the interesting offsets are each boundary and its two neighbours"""
+    L = ["MODULE Linux x86_64 %s %s" % (bid, name)]
+    for i, f in enumerate(SPECIAL_FILES):
+        L.append("FILE %d %s" % (i, f))
+    L += ["INLINE_ORIGIN 0 inlined_a()", "INLINE_ORIGIN 1 ns::inlined_b(int)"]
+    addr = 0x3001
+    offsets = []
+    nf = len(SPECIAL_FILES)
+    for fi in range(12):
+        cuts = [0, 0x0B + fi % 2, 0x15, 0x1E + fi % 3, 0x29, 0x33 + fi % 2]      # line-record boundaries inside the function, odd and even
+        size = 0x3B + fi % 4
+        L.append("FUNC %x %x 0 odd_func_%d" % (addr, size, fi))
+        i0, i1 = addr + cuts[2], addr + cuts[4]                                   # one inline range, and a nested one with odd ends
+        L.append("INLINE 0 %d %d 0 %x %x" % (100 + fi, (fi + 3) % nf, i0, i1 - i0))
+        L.append("INLINE 1 %d %d 1 %x %x" % (200 + fi, (fi + 5) % nf, i0 + 3, 5))
+        for k, c in enumerate(cuts):
+            end = cuts[k + 1] if k + 1 < len(cuts) else size
+            L.append("%x %x %d %d" % (addr + c, end - c, 10 + k, (fi + 2 * k) % nf))
+            offsets += [addr + c - 1, addr + c, addr + c + 1]
+        offsets += [i0 + 2, i0 + 3, i0 + 4, i0 + 7, i0 + 8, i0 + 9, i1 - 1, i1, addr + size - 1, addr + size]
+        addr += size + (fi % 3)                                                   # functions abut, or are 1..2 bytes apart
+    return "\n".join(L) + "\n", sorted(set(o for o in offsets if o >= 0))
 
 
 def _gen_sym(name, bid, variant):
+    if variant == 2:
+        return _gen_sym_odd(name, bid)
     L = ["MODULE Linux x86_64 %s %s" % (bid, name)]
     for i, f in enumerate(SPECIAL_FILES):
         L.append("FILE %d %s" % (i, f))
@@ -81,6 +110,12 @@ class Env:
             open(p, "w").write(text)
             self.modules.append({"debugName": name, "breakpadId": bid, "offsets": offsets, "kind": "generated"})
         self.n = 0
+        # every generated module must actually load through the symbol manager (a module that silently fails to load would only thin the run out)
+        import json as _json
+        probe = ["%s %s %s %d %s" % (self.dir, m["debugName"], m["breakpadId"], m["offsets"][1], self.tmpfile("")) for m in self.modules if m["kind"] == "generated"]
+        rc, outl, err = K.run_lines(self.bin, ["src"], probe)
+        if rc != 0 or len(outl) != len(probe) or any(not _json.loads(l).get("load") for l in outl):
+            raise K.TieBroken("a generated Breakpad module does not load through the symbol manager: %s" % [l[:160] for l in outl if not _json.loads(l).get("load")][:2])
 
     def tmpfile(self, content):
         self.n += 1
